@@ -154,7 +154,7 @@ def run(R):
     # ---------------------------------------------------------------- R4 announced encoding
     R.describe('C03.R4', 'the encoding announced in grpc-encoding is the one handed to the encoder, whose flag is is_some(effective encoding); tokens/codecs per spec table')
     with R.guard('C03.R4'):
-        C01.run_codec_tables(R, tonic, tag='@C03')
+        C01.run_codec_tables(R, tonic, tag='@C03', rule='C03.R4')
         pn = tonic.body(re.compile(r'codec::encode::EncodedBytes<T, U> as .*Stream>::poll_next$'))
         bb, t = pn.call1(name='encode_item')
         R.check('compression_encoding' in show(pn.origin(t['args'][3])), 'C03.R4', 'effective-encoding-to-encode_item', site(pn, bb), 'encoding = %s' % show(pn.origin(t['args'][3])))
@@ -164,6 +164,15 @@ def run(R):
         if sw:
             cb, ct = ei.call1(pat='compression::compress')
             R.check(any(s == sw[0] and vals == [1] for s, vals, tm in ei.edge_guards(cb)), 'C03.R4', 'compress-on-some', site(ei, cb), 'compress only on Some(encoding)')
+            # flag 1 <=> compressed: on the Some arm every path to finish_encoding passes through compress
+            fb_, ft_ = ei.call1(name='finish_encoding')
+            some_t = [t_ for t_, vals in ei.switch_edges(sw[0]).items() if vals == [1]]
+            okp = bool(some_t) and fb_ not in ei.reachable(some_t[0], removed={cb})
+            R.check(okp, 'C03.R4', 'compress-on-every-path-of-the-some-arm', site(ei, cb),
+                    'with an encoding negotiated (flag 1) finish_encoding is reached only through compress(): %r (e.g. skipping compress for an empty message yields frame 01 00 00 00 00, which is not a valid compressed stream)' % okp)
+            none_t = [t_ for t_, vals in ei.switch_edges(sw[0]).items() if vals != [1]]
+            okn = all(cb not in ei.reachable(t_, removed={sw[0]}) for t_ in none_t)
+            R.check(okn, 'C03.R4', 'no-compress-on-none-arm', site(ei, cb), 'without an encoding (flag 0) compress() is unreachable: %r' % okn)
             st = strip_refs(ei.origin(ct['args'][0]))
             okenc = st[0] == 'agg' and term_contains(st[2][0], lambda x: x and x[0] == 'variant' and x[2] == 'Some') and 'arg4' in show(st[2][0])
             R.check(okenc, 'C03.R4', 'compress-with-that-encoding', site(ei, cb), 'settings.encoding = %s' % show(st[2][0] if st[0] == 'agg' else st))
